@@ -44,8 +44,54 @@ theorem trimStartFuel_suffix : ∀ (fuel : Nat) (s : Bytes), ∃ k, trimStartFue
       · exact ⟨0, by simp⟩
     · exact ⟨0, by simp⟩
 
+/-- an optional `-` marker -/
+def dash (b : Bool) : Bytes := if b then [0x2D] else []
+
 def delimBytes (d : Delims) : Bytes :=
   d.blockStart ++ d.blockEnd ++ d.variableStart ++ d.variableEnd ++ d.commentStart ++ d.commentEnd
+
+/-- a template independent of the delimiter spelling -/
+inductive Seg where
+  | text (s : Bytes)
+  | var (dashL dashR : Bool) (expr : Bytes)
+  | tag (dashL dashR : Bool) (body : Bytes)
+  | comment (dashL dashR : Bool) (body : Bytes)
+
+def spellSeg (d : Delims) : Seg → Bytes
+  | .text s => s
+  | .var l r e => d.variableStart ++ dash l ++ [0x20] ++ e ++ [0x20] ++ dash r ++ d.variableEnd
+  | .tag l r b => d.blockStart ++ dash l ++ [0x20] ++ b ++ [0x20] ++ dash r ++ d.blockEnd
+  | .comment l r b => d.commentStart ++ dash l ++ [0x20] ++ b ++ [0x20] ++ dash r ++ d.commentEnd
+
+def spell (d : Delims) (segs : List Seg) : Bytes := segs.flatMap (spellSeg d)
+
+def segPayload : Seg → Bytes
+  | .text s => s
+  | .var _ _ e => e
+  | .tag _ _ b => b
+  | .comment _ _ b => b
+
+/-- "the delimiters of `d` do not occur in its text or expressions", read strongly and
+spelling-independently: no payload byte is a byte of any delimiter of `d`; neither the space used
+by `spell`, nor `-`, nor any ASCII whitespace, nor a letter of `raw` is a delimiter byte;
+expressions and tag bodies contain no string quote (an unterminated string would scan across the
+end delimiter, making its payload depend on the spelling) and tag bodies do not mention `raw` (raw
+blocks are a different path). -/
+structure Clean (d : Delims) (segs : List Seg) : Prop where
+  space : 0x20 ∉ delimBytes d
+  dash : 0x2D ∉ delimBytes d
+  noWs : ∀ b ∈ delimBytes d, isAsciiWs b = false
+  noRaw : ∀ b ∈ Generated.rawName, b ∉ delimBytes d
+  payload : ∀ s ∈ segs, ∀ b ∈ segPayload s, b ∉ delimBytes d
+  exprs : ∀ s ∈ segs,
+    match s with
+    | .var _ _ e => ∀ q ∈ Generated.stringQuotes, q ∉ e
+    | .tag _ _ b => (∀ q ∈ Generated.stringQuotes, q ∉ b) ∧ ¬ Occurs Generated.rawName b
+    | _ => True
+
+theorem Clean.tail {d : Delims} {s : Seg} {rest : List Seg} (h : Clean d (s :: rest)) : Clean d rest :=
+  ⟨h.space, h.dash, h.noWs, h.noRaw, fun x hx => h.payload x (List.mem_cons_of_mem _ hx),
+   fun x hx => h.exprs x (List.mem_cons_of_mem _ hx)⟩
 
 theorem noStart_of_disjoint (d : Delims) (s : Bytes) (h1 : d.variableStart ≠ []) (h2 : d.blockStart ≠ [])
     (h3 : d.commentStart ≠ []) (h : ∀ b ∈ s, b ∉ delimBytes d) : NoStart d s := by
